@@ -7,6 +7,10 @@ from . import invoker
 
 
 def git_env(home, date):
+    if not (1971 <= date.year <= 2098):
+        # git cannot store every simulated date; map the others deterministically into its range
+        import datetime as _dt
+        date = _dt.date(1971, 1, 1) + _dt.timedelta(days=date.toordinal() % 40000)
     stamp = "%sT12:00:00 +0000" % date.isoformat()
     return {
         "GIT_CONFIG_GLOBAL": "/dev/null", "GIT_CONFIG_SYSTEM": "/dev/null", "GIT_CONFIG_NOSYSTEM": "1",
